@@ -37,6 +37,8 @@ for _n, _f in (("FlorySchulz", dict(_a=REAL)), ("SchulzZimm", dict(_Mw=REAL, _Mn
                ("LogNormal", dict(_M=REAL, _D=REAL)), ("Poisson", dict(_N=REAL))):
     cls(_n, "distribution", bases=["Distribution"], **_f)
 R.CLASSES["Distribution"]["abstract"] = True
+for _n in ("FlorySchulz", "SchulzZimm", "Gauss", "Uniform", "LogNormal", "Poisson"):
+    R.CLASSES[_n]["closed"] = True          # all instance attributes are declared: reading any other attribute is an AttributeError
 
 cls("Stochastic", "stochastic", bases=["BigSMILESbase"],
     _raw_text=STR, _generable=BOOL, bond_descriptors=List(Ref("BondDescriptor")),
@@ -103,4 +105,9 @@ for _n, _v in dict(UNSPECIFIED=0, SINGLE=1, DOUBLE=2, TRIPLE=3, QUADRUPLE=4, ONE
     R.NAME_CONSTS[f"rc.BondType.{_n}"] = _V(BT, _z3.IntVal(_v))
 R.NAME_CONSTS["rc.BondStereo.STEREOANY"] = _V(Enum("BondStereo"), _z3.IntVal(1))
 
-ufunc("sysmass", [Ref("System")], REAL)     # System.system_mass as a function of the system object (value checked by the C12 driver)
+from pyvc.registry import specfn as _specfn
+# the one system mass: the first component's (System.system_mass checks that no component claims a smaller one)
+_specfn('''
+def sysmass(s):
+    return val(s._molecules[0].mixture._system_mass)
+''')
